@@ -191,6 +191,17 @@ def audit(module):
 
 # ----------------------------------------------------------------------------- streams
 
+def _ends_with_hang(path):
+    try:
+        with open(path, "rb") as f:
+            f.seek(0, 2)
+            f.seek(max(0, f.tell() - (4 << 20)))
+            tail = f.read().decode("latin1").rstrip("\n").rsplit("\n", 1)[-1]
+    except OSError:
+        return False
+    return "HANG" in tail
+
+
 def run_stream(spec, workdir, idx, harness, driver="driver"):
     """spec: dict(kind='api'|'script'|'wire', args=[...] | script=str). Returns paths."""
     lines = os.path.join(workdir, f"lines_{idx}.txt")
@@ -207,21 +218,31 @@ def run_stream(spec, workdir, idx, harness, driver="driver"):
         cmd = [harness, spec["kind"], "-bin", server] + [str(a) for a in spec["args"]]
     else:
         cmd = [harness, spec["kind"]] + [str(a) for a in spec["args"]]
-    try:
-        with open(lines, "w") as lf:
-            p = subprocess.run(cmd, stdout=lf, stderr=subprocess.PIPE, text=True, timeout=STREAM_TIMEOUT)
-    except subprocess.TimeoutExpired:
-        # a stream that does not end is itself a finding (something hangs); no input can be named
-        return dict(spec=spec, lines=lines, verd=None,
-                    error=f"the stream did not finish within {STREAM_TIMEOUT} s (the implementation hangs): " + " ".join(map(str, cmd[1:])))
-    if p.returncode != 0:
-        return dict(spec=spec, lines=lines, verd=None, error=p.stderr[-2000:] or f"the harness exited with status {p.returncode}")
+    hang_retried = False
+    for attempt in (0, 1):
+        try:
+            with open(lines, "w") as lf:
+                p = subprocess.run(cmd, stdout=lf, stderr=subprocess.PIPE, text=True, timeout=STREAM_TIMEOUT)
+        except subprocess.TimeoutExpired:
+            # a stream that does not end is itself a finding (something hangs); no input can be named
+            return dict(spec=spec, lines=lines, verd=None,
+                        error=f"the stream did not finish within {STREAM_TIMEOUT} s (the implementation hangs): " + " ".join(map(str, cmd[1:])))
+        if p.returncode != 0:
+            return dict(spec=spec, lines=lines, verd=None, error=p.stderr[-2000:] or f"the harness exited with status {p.returncode}")
+        # A request that did not return within 20 s ends the stream with a HANG line. The streams are a
+        # deterministic function of their seed, so a real deadlock hangs again at the same request; a stall of
+        # the machine (an fsync behind a saturated disk, say) does not. A HANG is therefore reported only when
+        # an identical second run of the stream hangs too.
+        if attempt == 0 and _ends_with_hang(lines):
+            hang_retried = True
+            continue
+        break
     drv = os.path.join(LEAN, ".lake", "build", "bin", spec.get("driver", driver))
     with open(lines) as lf, open(verd, "w") as vf:
         p2 = subprocess.run([drv], stdin=lf, stdout=vf, stderr=subprocess.PIPE, text=True)
     if p2.returncode != 0:
         return dict(spec=spec, lines=lines, verd=None, error="driver: " + (p2.stderr[-2000:] or f"exit status {p2.returncode}"))
-    return dict(spec=spec, lines=lines, verd=verd, error=None, stderr=p.stderr[-4000:])
+    return dict(spec=spec, lines=lines, verd=verd, error=None, stderr=p.stderr[-4000:], hang_retried=hang_retried)
 
 
 def run_streams(specs, harness, workdir, jobs=16):
